@@ -163,12 +163,25 @@ def _scribble(o: Any, depth: int = 0, budget: Optional[List[int]] = None) -> Non
                     pass
 
 
+def exc_shape(e: BaseException, depth: int = 0) -> Any:
+    """Shape of an exception: type names of the (grouped) exception tree plus the cattrs notes that say
+    where it happened — no messages (they may contain reprs), nothing address-dependent."""
+    if depth > 12:
+        return "<deep>"
+    notes = [str(n)[:120] for n in getattr(e, "__notes__", []) if "0x" not in str(n)]
+    kids = [exc_shape(x, depth + 1) for x in getattr(e, "exceptions", [])]
+    return [type(e).__name__, notes, kids]
+
+
 def do_use(conv: Any, k: int) -> Tuple:
     name, tname, js = battery.STRUCT[k]
     lsp = Z["lsp"]
     try:
         t = getattr(lsp, tname)
-        obj = conv.structure(json.loads(json.dumps(js)), t)
+        inp = json.loads(json.dumps(js))
+        obj = conv.structure(inp, t)
+        if inp != js:
+            return ("mutated-input", "structure() changed the caller's input value")
         img = core.digest(typed(obj))
         out = json.dumps(conv.unstructure(obj), sort_keys=False, default=repr)
         # the same call again after the first result was scribbled over: must be unaffected
@@ -178,7 +191,7 @@ def do_use(conv: Any, k: int) -> Tuple:
             return ("unstable", "result of an earlier structure() call is aliased by a later one")
         return ("ok", img, core.digest(out))
     except Exception as e:
-        return ("err", type(e).__name__)
+        return ("err", type(e).__name__, core.digest(exc_shape(e)))
 
 
 def do_build(conv: Any, k: int) -> Tuple:
@@ -191,10 +204,10 @@ def do_build(conv: Any, k: int) -> Tuple:
         back = conv.structure(json.loads(out), type(obj))
         return ("ok", core.digest(out), core.digest(typed(back)))
     except Exception as e:
-        return ("err", type(e).__name__)
+        return ("err", type(e).__name__, core.digest(exc_shape(e)))
 
 
-CUSTOM_VARIANTS = ["position", "range", "severity", "primitives"]
+CUSTOM_VARIANTS = ["position", "range", "severity", "primitives", "factory", "optional"]
 
 
 def customise(conv: Any, variant: str = "position") -> None:
@@ -224,6 +237,21 @@ def customise(conv: Any, variant: str = "position") -> None:
 
         conv.register_structure_hook(lsp.DiagnosticSeverity, sev_s)
         conv.register_unstructure_hook(lsp.DiagnosticSeverity, sev_u)
+    elif variant == "factory":
+        # a user hook FACTORY selected by a predicate (what cattrs users write for families of classes)
+        def is_text_edit(t: Any) -> bool:
+            return t is lsp.TextEdit
+
+        def make_te(_t: Any) -> Any:
+            return lambda o, _tt: lsp.TextEdit(range=conv.structure(o["range"], lsp.Range), new_text="<" + str(o["newText"]) + ">")
+
+        conv.register_structure_hook_factory(is_text_edit, make_te)
+        conv.register_unstructure_hook_factory(lambda t: t is lsp.Command, lambda _t: (lambda c: {"title": c.title.upper(), "command": c.command}))
+    elif variant == "optional":
+        # a user hook for a generic alias
+        from typing import Optional as _Opt
+
+        conv.register_structure_hook(_Opt[lsp.Command], lambda o, _t: None if o is None else lsp.Command(title="user:" + str(o.get("title")), command=str(o.get("command"))))
     elif variant == "primitives":
         # hooks for JSON primitives: a strict bool and rounded floats
         def strict_bool(o: Any, _t: Any) -> bool:
@@ -349,10 +377,10 @@ def gen_run(run_seed: int, tier: str) -> Dict[str, Any]:
     nS, nB = len(battery.STRUCT), len(battery.BUILD)
 
     shape = r_ops.choices(
-        ["concurrent_first", "late_joiner", "single_history", "burst", "shared_user", "big_payload", "churn"],
-        weights=[36, 13, 17, 5, 18, 5, 6],
+        ["concurrent_first", "late_joiner", "single_history", "burst", "shared_user", "big_payload", "churn", "long_life"],
+        weights=[35, 13, 17, 5, 18, 5, 5, 2],
     )[0]
-    if shape in ("single_history", "burst", "churn"):
+    if shape in ("single_history", "burst", "churn", "long_life"):
         n = 1
     elif shape == "big_payload":
         n = r_ops.choice([2, 2, 3])
@@ -387,6 +415,10 @@ def gen_run(run_seed: int, tier: str) -> Dict[str, Any]:
         k = r_ops.randrange(nS - len(battery.BIG))
         return k if k < base_n else k + len(battery.BIG)  # skip over the big block
 
+    def pick_k_small() -> int:
+        k = r_ops.randrange(nS - len(battery.BIG))
+        return k if k < base_n else k + len(battery.BIG)
+
     def use_ops(slot: int, count: int) -> List[List[Any]]:
         ops = []
         for _ in range(count):
@@ -412,7 +444,21 @@ def gen_run(run_seed: int, tier: str) -> Dict[str, Any]:
     for t in range(n):
         ops: List[List[Any]] = []
         nslots = 0
-        if shape == "churn":
+        if shape == "long_life":
+            # one converter serves a long session (1 500-2 500 calls) while two others come and go:
+            # size-limited caches, counters and "after N uses" paths
+            ops.append(get_op(0, allow_shared=False))
+            ops.append(get_op(1, allow_shared=False))
+            total = r_ops.choice([1500, 2500])
+            for i_ in range(total):
+                ops.append(["USE", 0, pick_k_small()])
+                if i_ % 500 == 250:
+                    ops.append(["DROP", 1])
+                    ops.append(get_op(1, allow_shared=False))
+                    ops += use_ops(1, 2)
+            ops += use_ops(0, 3)
+            nslots = 2
+        elif shape == "churn":
             # a long-running process: converters (mostly user-supplied) are created, used and dropped
             # one after another, so addresses / ids of dead converters get recycled many times
             ops.append(get_op(0, allow_shared=False))
@@ -537,6 +583,7 @@ def execute(run: Dict[str, Any], golden: Dict[str, Any]) -> Dict[str, Any]:
     n = run["n"]
     viol: List[Dict[str, str]] = []
     history: List[List[Any]] = []
+    rec_limit0 = sys.getrecursionlimit()
     probes = {
         "overlap_resolve": 0,
         "iter_vs_eval": 0,
@@ -844,6 +891,16 @@ def execute(run: Dict[str, Any], golden: Dict[str, Any]) -> Dict[str, Any]:
     # end-of-run isolation sweep: every converter created in this run, in creation order, must still
     # agree with the golden of its mode on a small sample (creating/customising later ones must not
     # have altered earlier ones).  Runs sequentially, untraced, after all threads are done.
+    # interpreter-wide state that changes the behaviour of every converter must be as it was
+    try:
+        import attrs as _attrs
+
+        if _attrs.validators.get_disabled():
+            viol.append({"sig": "global-state:attrs-validators-disabled", "msg": "after the run attrs validators are globally disabled (every converter now accepts invalid values)"})
+    except Exception:
+        pass
+    if sys.getrecursionlimit() != rec_limit0:
+        viol.append({"sig": "global-state:recursion-limit", "msg": f"recursion limit changed from {rec_limit0} to {sys.getrecursionlimit()}"})
     swept = 0
     if harness is None and sched.abort is None:
         r_sweep = core.rng(run["run_seed"], "sweep")
